@@ -428,7 +428,8 @@ fn run_session(rep: &mut Report, spec: &SessionSpec, label: &str) {
         }
         // ---- differential: replay the transport's answers to the model ----
         rep.expect(format!("c07 script {}", wire_script(&wire)), "ok".into());
-        rep.expect(req, format!("{ans} | {} left=0 desync=false", wire_stat(&wire).show()));
+        let tag = format!("#{}/{}/{}/{:?}/{}", spec.adv_cmd, spec.adv_ack, spec.retry, spec.plan, spec.faults.iter().map(|(j, f)| format!("{j}:{}", fault_str(f))).collect::<Vec<_>>().join(",")).replace(' ', "");
+        rep.expect(format!("{req} {tag}"), format!("{ans} | {} left=0 desync=false", wire_stat(&wire).show()));
         // ---- after the first error: device conforming and enforcing its limits from now on ----
         if !matches!(r, Ok(Ok(_))) && !recovering {
             any_err = true;
